@@ -203,6 +203,24 @@ theorem no_resume_failed_counterexample : ¬ NoResumeFailed := by
 
 /-! ### non-vacuity -/
 
+/-- the hypotheses of `no_resume_failed_partial` are satisfiable with a real promotion: on
+`[(3,1),(1,3)]` one of three trials fails, two report; the state is reachable, has no
+shortfall, and the next `suggest` resumes the best valid trial (2). -/
+example :
+    ∃ s0, Sched.init .min [[(3, 1), (1, 3)]] false false = .ok s0 ∧
+      LegalRun s0 [.suggest 0 true, .suggest 1 true, .suggest 2 true, .error 0,
+                   .result 1 1 (.val (3/4)), .result 2 1 (.val (1/4))] ∧
+      (∀ br ∈ (s0.run [.suggest 0 true, .suggest 1 true, .suggest 2 true, .error 0,
+                   .result 1 1 (.val (3/4)), .result 2 1 (.val (1/4))]).mgr.brackets, NoShortfallBr br) ∧
+      ((s0.run [.suggest 0 true, .suggest 1 true, .suggest 2 true, .error 0,
+                   .result 1 1 (.val (3/4)), .result 2 1 (.val (1/4))]).suggest 3 true).toOption.map (·.2.1)
+        = some (.resume 2 3 none) := by
+  refine ⟨_, rfl, by decide +kernel, ?_, by decide +kernel⟩
+  intro br hbr
+  apply noShortfallPairs_sound
+  revert br
+  decide +kernel
+
 /-- a reachable state with a pending trial whose failure is then contained -/
 example :
     ∃ s0, Sched.init .max [[(3, 1), (1, 3)]] true false = .ok s0 ∧
